@@ -102,6 +102,16 @@ def content_octets(b):
     return b[i:]
 
 
+def _record_member(codec, kind, text, as_mapping):
+    from pyasn1.type import univ as _u, namedtype as _nt
+    rec = _u.Sequence(componentType=_nt.NamedTypes(_nt.NamedType('when', KINDS[kind]())))
+    if as_mapping:
+        return ENCODERS[codec].encode({'when': text}, asn1Spec=rec)
+    v = rec.clone()
+    v['when'] = text
+    return ENCODERS[codec].encode(v)
+
+
 def impl_canon(kind, text, codec):
     try:
         b = ENCODERS[codec].encode(KINDS[kind](text))
@@ -260,6 +270,26 @@ def oracle_encoder(rep, kind, text, replay):
             rep.fail(sig, '%s of %r is %r: %s instead of %s' % (codec, text, out, reading_str(x680(kind, out)),
                                                                reading_str(rin_eff)), rp)
             ok = ok and sig == 'canon-inner-zero-deleted'
+        # the other ways of handing the same value to the encoder - value object or plain text together with the type,
+        # a member of a record given as an object and as a mapping - write the same octets
+        for route, mk in (('object+asn1Spec', lambda: ENCODERS[codec].encode(KINDS[kind](text), asn1Spec=KINDS[kind]())),
+                          ('text+asn1Spec', lambda: ENCODERS[codec].encode(text, asn1Spec=KINDS[kind]())),
+                          ('record-member', lambda: _record_member(codec, kind, text, False)),
+                          ('record-mapping+asn1Spec', lambda: _record_member(codec, kind, text, True))):
+            rep.count('enc-routes')
+            try:
+                b2 = mk()
+                if route.startswith('record'):
+                    b2 = bytes(b2)
+                    b2 = b2[2:-2] if b2[1] == 0x80 else content_octets(b2)      # the record's own header (CER: indefinite)
+                out2 = content_octets(b2).decode('latin-1')
+            except Exception as e:  # noqa
+                out2 = 'err ' + type(e).__name__
+            if out2 != out:
+                rep.fail('canonical-form-depends-on-route', '%s of %r via %s is %r, via encode(value object) %r' % (codec, text, route, out2, out),
+                         dict(rp, route=route))
+                ok = False
+                break
     return ok
 
 
